@@ -1,9 +1,15 @@
 // Copyright Amazon.com, Inc. or its affiliates. All Rights Reserved.
 // SPDX-License-Identifier: Apache-2.0
 
+#[cfg(not(metrique_verif))]
 use std::{
     io, mem,
     time::{Duration, Instant},
+};
+#[cfg(metrique_verif)]
+use ::{
+    detsim::time::Instant,
+    std::{io, mem, time::Duration},
 };
 
 use ahash::HashMap;
@@ -128,6 +134,29 @@ impl<F: SampledFormat, R: RngCore> Format for CongressSample<F, R> {
         } else {
             Ok(())
         }
+    }
+}
+
+#[cfg(metrique_verif)]
+impl<F, R> CongressSample<F, R> {
+    /// Verification hook: (group, average observed per interval, current sample rate, observed in
+    /// the running interval) for every tracked group, plus the running interval's total.
+    #[doc(hidden)]
+    pub fn __verif_groups(&self) -> (Vec<(String, f32, f32, u32)>, u32) {
+        let mut v: Vec<(String, f32, f32, u32)> = self
+            .groups
+            .iter()
+            .map(|(g, st)| {
+                (
+                    format!("{g:?}"),
+                    st.average_observed.current(),
+                    st.sample_rate,
+                    st.current_observed,
+                )
+            })
+            .collect();
+        v.sort_by(|a, b| a.0.cmp(&b.0));
+        (v, self.current_observed)
     }
 }
 
